@@ -423,7 +423,9 @@ func (o *oracle) step(op Op) string {
 			return cout("nil", e, nil, nil, 0) + " | " + o.dump()
 		}
 		var ids []string
-		if id == "" && op.has("gid") {
+		// an id is absent when the caller gave none (decided BEFORE the id interceptor, which may turn the
+		// empty id into a key of its own: fix 929e9c0) or when the interceptor maps it to the empty key
+		if (op.ID == "" || id == "") && op.has("gid") {
 			found := false
 			for i := 0; i < 10 && !found; i++ {
 				cand := b64(o.read(6 + i))
